@@ -135,7 +135,7 @@ HARNESSES = [
       strength="B(out<=16,in<=4 bytes; complete in every register, table entry, flag and position)"),
     # ---- K-reset ----
     H("k_inflate_reset_policies", "K-reset", ["C18"], fns=["MinReset::reset", "ZeroReset::reset", "FullReset::reset", "InflateState::reset", "InflateState::reset_as", "DecompressorOxide::init"], cost=40),
-    H("k_compressor_reset", "K-reset", ["C18", "C02", "C14", "C16"], fns=["CompressorOxide::reset", "ParamsOxide::reset", "DictOxide::reset", "HashBuffers::reset", "LZOxide::new", "HuffmanOxide::default"], cost=60,
+    H("k_compressor_reset", "K-reset", ["C18", "C02", "C11", "C14", "C16"], fns=["CompressorOxide::reset", "ParamsOxide::reset", "DictOxide::reset", "HashBuffers::reset", "LZOxide::new", "HuffmanOxide::default"], cost=60,
       note="<[T]>::fill replaced by its std contract model (writes index 0; call count and slice lengths recorded): the window/next/hash fills are observed at index 0 plus (3 calls, total length) and extended to every element by the std contract"),
     # ---- K-lenDist ----
     H("k_lz_one_match_roundtrip", "K-lenDist", ["C01", "C02", "C10"], cost=40,
@@ -157,6 +157,9 @@ HARNESSES = [
     H("k_fast_tail", "K-fasttail", ["C01", "C02", "C12"], fns=["compress_fast (tail path: fewer than 4 bytes with a flush requested)"], cost=70, timeout=900,
       strength="B(1..3 bytes of work split between prior lookahead and new input in 4 concrete ways, window position 1000; complete in data, flags, window bits, flush mode, dictionary size)",
       note="flush_block replaced by a no-op model (not reached: the token buffer is far from full)"),
+    H("k_fast_tail_window_wrap", "K-fasttail", ["C01", "C02", "C12"], fns=["compress_fast (input copy into the window: mirrored start, wrap at the window end; tail path)"], cost=70, timeout=900,
+      strength="B(3 bytes at window index 5; 1+2 bytes straddling the window end; complete in data, flags, window bits, flush mode, dictionary size)",
+      note="flush_block replaced by a no-op model (not reached: the token buffer is far from full)"),
     # ---- K-normal-early ----
     H("k_normal_early_return_keeps_lazy_state", "K-normal-early", ["C01", "C02"], fns=["compress_normal (first token decision and early return after flush_block)"], cost=80, timeout=900,
       strength="B(3 concrete input bytes at window position 40000, one token decision; complete in flags, window bits, dictionary size, matcher result, flush_block result)",
@@ -164,7 +167,7 @@ HARNESSES = [
     H("k_normal_rle_first_token", "K-normal-early", ["C01", "C02", "C10", "C12"], fns=["compress_normal (RLE branch: run detection against the previous byte, history guard)"], cost=80, timeout=900,
       strength="B(3 symbolic input bytes at window position 40000, one token decision; complete in input bytes, previous byte, flags with RLE set, window bits, dictionary size)",
       note="find_match / record_match / record_literal / flush_block replaced by contract models"),
-    H("k_find_match_chain", "K-findmatch", ["C01", "C10", "C11"], fns=["DictOxide::find_match", "DictOxide::read_unaligned_u64", "read_u16_le"], cost=60, timeout=900,
+    H("k_find_match_chain", "K-findmatch", ["C01", "C02", "C10", "C11"], fns=["DictOxide::find_match", "DictOxide::read_unaligned_u64", "read_u16_le"], cost=60, timeout=900,
       strength="B(one concrete window/hash-chain instance with three chain entries incl. a 65536-byte-old aliasing one; 8 concrete (incoming length, length limit) pairs; complete in probe budget, distance limit, incoming distance)"),
     *[H(n, "K-fastcap", ["C01", "C10", "C11"], fns=["compress_fast (trigram hash lookup, match verification, distance/window cap, token emission, early return)", "DictOxide::read_unaligned_u32", "DictOxide::read_unaligned_u64"], cost=90, timeout=1200,
         strength="B(one planted 4-byte repeat at distance %s, 4 input bytes; complete in format, level, strategy, window bits, dictionary size)" % dd,
